@@ -3,6 +3,7 @@
 #include "linz.h"
 #include <cocls/queue.h>
 #include <cocls/async.h>
+#include <cocls/future.h>
 #include <deque>
 #include <memory>
 #include <thread>
@@ -109,6 +110,25 @@ template <typename T> void blocking_consumer(cocls::queue<T> &q, int me, int npo
     }
     dsim::cell_add(CONS_DONE, 1);
 }
+
+// callback-style consumer: a member function is called when the pop completes; it records the value and re-arms the next
+// pop from inside the handler (and looks at the queue), the way an event-driven consumer does
+template <typename T> struct CallbackConsumer {
+    cocls::queue<T> &q; int me, left; cocls::promise<void> done; int cur_op = -1;
+    cocls::suspend_point<void> on_item(cocls::future<T> &f) noexcept {
+        try {
+            if constexpr (std::is_void_v<T>) { f.value(); dsim::cell_add(VOID_POPS, 1); op_drop(cur_op); }
+            else { long x = V<T>::get(f.value()); op_end(cur_op, x); log_pop(me, x); }
+        } catch (const vs::TestError &e) { op_drop(cur_op); long n = dsim::cell_add(EXC_SEEN, 1); dsim::cell_set(EXC_CODES + (int)n, e.code); }
+        catch (const cocls::await_canceled_exception &) { op_drop(cur_op); dsim::cell_add(CANCELLED, 1); left = 0; }
+        (void)q.empty();
+        if (left > 0 && --left > 0) arm(); else { left = 0; return done(); }
+        return {};
+    }
+    cocls::call_fn_future_awaiter<&CallbackConsumer::on_item> awt{*this};
+    void arm() { cur_op = op_begin(1, 0); awt << [this] { return q.pop(); }; }
+    CallbackConsumer(cocls::queue<T> &q, int me, int n) : q(q), me(me), left(n) {}
+};
 struct QModel {
     std::deque<long> q;
     bool apply(const vs::LOp &o) {
@@ -124,11 +144,11 @@ template <typename T> void multi_thread() {
     int pushes[3], ck[3], cp[3]; long total_push = 0;
     for (int i = 0; i < np; i++) { pushes[i] = 1 + dsim::choose(4); total_push += pushes[i]; }
     int n_block = 0;
-    for (int i = 0; i < nc; i++) { ck[i] = dsim::choose(2); cp[i] = 1 + dsim::choose(4); if (ck[i] == 1) n_block++; }
+    for (int i = 0; i < nc; i++) { ck[i] = dsim::choose(3); cp[i] = 1 + dsim::choose(4); if (ck[i] >= 1) n_block++; }
     int n_unblock = dsim::choose(3);
     dsim::plan_note("threads: producers=%d consumers=%d unblocks=%d", np, nc, n_unblock);
     for (int i = 0; i < np; i++) dsim::plan_note(" P%d:%d", i, pushes[i]);
-    for (int i = 0; i < nc; i++) dsim::plan_note(" C%d:%s%d", i, ck[i] ? "blk" : "coro", cp[i]);
+    for (int i = 0; i < nc; i++) dsim::plan_note(" C%d:%s%d", i, ck[i] == 2 ? "cb" : ck[i] ? "blk" : "coro", cp[i]);
     {
         auto q = std::make_unique<cocls::queue<T>>();
         std::vector<std::thread> prod, cons;
@@ -137,6 +157,12 @@ template <typename T> void multi_thread() {
                 auto f = coro_consumer<T>(*q, i, cp[i]).start();
                 dsim::cell_set(RETURNED + i, 1);       // the coroutine returned control: finished or parked (it continues on producer threads)
                 f.wait();
+            } else if (ck[i] == 2) {
+                CallbackConsumer<T> cc(*q, i, cp[i]);
+                cocls::future<void> fin; cc.done = fin.get_promise();
+                cc.arm();
+                fin.wait();
+                dsim::cell_add(CONS_DONE, 1);
             } else blocking_consumer<T>(*q, i, cp[i]);
         });
         for (int i = 0; i < np; i++) prod.emplace_back([&, i] {
